@@ -12,6 +12,8 @@ from pyteal.ir import (
 from pyteal.util import unescapeStr, correctBase32Padding
 from pyteal.errors import TealInternalError
 
+MAX_BLOCK_SIZE = 256
+
 intEnumValues = {
     # OnComplete values
     "NoOp": 0,
@@ -160,11 +162,13 @@ def createConstantBlocks(ops: List[TealComponent]) -> List[TealComponent]:
         for i, val in enumerate(sortedInts)
         if intFreqs[val] > 1 and (i < 4 or isinstance(val, str) or val >= 2**7)
     ]
+    # intc and bytec address their block with a one-byte index, so a block holds at most 256
+    # constants; less frequent ones are loaded with pushint/pushbytes instead
+    intBlock = intBlock[:MAX_BLOCK_SIZE]
 
+    byteBlockValues = [b for b in sortedBytes if byteFreqs[b] > 1][:MAX_BLOCK_SIZE]
     byteBlock = [
-        ("0x" + b.hex()) if type(b) is bytes else cast(str, b)
-        for b in sortedBytes
-        if byteFreqs[b] > 1
+        ("0x" + b.hex()) if type(b) is bytes else cast(str, b) for b in byteBlockValues
     ]
 
     if len(intBlock) != 0:
@@ -214,7 +218,7 @@ def createConstantBlocks(ops: List[TealComponent]) -> List[TealComponent]:
                         "Expect a byte-like constant opcode, get {}".format(op)
                     )
 
-                if byteFreqs[byteValue] == 1:
+                if byteValue not in byteBlockValues:
                     encodedValue = (
                         ("0x" + byteValue.hex())
                         if type(byteValue) is bytes
@@ -225,7 +229,7 @@ def createConstantBlocks(ops: List[TealComponent]) -> List[TealComponent]:
                     )
                     continue
 
-                index = sortedBytes.index(byteValue)
+                index = byteBlockValues.index(byteValue)
                 if index == 0:
                     assembled.append(TealOp(op.expr, Op.bytec_0, "//", *op.args))
                 elif index == 1:
